@@ -27,6 +27,7 @@ struct Problem
   bool aligned = false;            // use the aligned overload (identity correspondences over all stored points)
   bool reusedSets = false;         // the PreconditionedPointSet objects held a larger, unrelated set before
   bool assignedSets = false;       // ... and receive the new content by copy assignment instead of compute()
+  int junkUnmatched = 0;           // points no correspondence refers to: 1 = a far "no return" marker, 2 = NaN
   int cloudMode = 0;
   double spread2 = 1, spread3 = 1; // s2/s1, s3/s1 of the centred used source points
 };
@@ -208,7 +209,20 @@ MatrixXd runLibrary(const Problem & pb)
   if (pb.aligned) {
     for (const auto & cr : pb.corr) {src.push_back(conv(pb.src, cr.first)); tgt.push_back(conv(pb.tgt, cr.second));}
   } else {
-    for (int k = 0; k < pb.n; ++k) {src.push_back(conv(pb.src, k)); tgt.push_back(conv(pb.tgt, k));}
+    std::vector<char> srcUsed(static_cast<size_t>(pb.n), 0), tgtUsed(static_cast<size_t>(pb.n), 0);
+    for (const auto & cr : pb.corr) {srcUsed[static_cast<size_t>(cr.first)] = 1; tgtUsed[static_cast<size_t>(cr.second)] = 1;}
+    auto junk = [&](int k) {
+        PT p = PT::Zero();
+        for (int d = 0; d < DIM; ++d) {
+          p[d] = pb.junkUnmatched == 2 ? std::numeric_limits<S>::quiet_NaN() : static_cast<S>((sizeof(S) == 4 ? 1e5 : 1e9) * pb.size * (1 + (k + d) % 3));
+        }
+        if (SIZE > DIM) {p[SIZE - 1] = S(1);}
+        return p;
+      };
+    for (int k = 0; k < pb.n; ++k) {
+      src.push_back(pb.junkUnmatched != 0 && !srcUsed[static_cast<size_t>(k)] ? junk(k) : conv(pb.src, k));
+      tgt.push_back(pb.junkUnmatched != 0 && !tgtUsed[static_cast<size_t>(k)] ? junk(k + 1) : conv(pb.tgt, k));
+    }
     for (const auto & cr : pb.corr) {corr.emplace_back(static_cast<size_t>(cr.first), static_cast<size_t>(cr.second));}
   }
   FindRigidTransformationBySVD<PT> est;
@@ -345,6 +359,12 @@ void svdBody(vf::Ctx & c)
   if (pb.reusedSets && pb.precond != 0) {c.label("preconditioned-set-objects-reused");}
   pb.assignedSets = c.s.flag("preconditioned_sets_copy_assigned", 1, 3);
   if (pb.reusedSets && pb.assignedSets && pb.precond != 0) {c.label("preconditioned-sets-copy-assigned-into-used-holders");}
+  // points that no correspondence refers to are not part of the problem: they may be anything (an invalid-return marker
+  // far away, NaN) - only meaningful for index-based lists that leave points out
+  pb.junkUnmatched = static_cast<int>(c.s.pick("unmatched_points_are", {3, 1, 1}));
+  if (pb.junkUnmatched != 0 && !pb.aligned && static_cast<int>(pb.corr.size()) < pb.n) {
+    c.label(pb.junkUnmatched == 1 ? "unmatched-points-are-far-markers" : "unmatched-points-are-NaN");
+  }
   c.commit();
 
   MatrixXd Rref;
